@@ -174,6 +174,11 @@ func (p *OIDCProvider) redeemRefreshToken(ctx context.Context, s *sessions.Sessi
 	// session will not contain an id token.
 	// If it doesn't it's probably better to retain the old one
 	if newSession.IDToken != "" {
+		// The email is mandatory at login (see EnrichSession), a refresh
+		// must not replace it with nothing.
+		if newSession.Email == "" {
+			return errors.New("neither the id_token nor the profileURL set an email")
+		}
 		s.IDToken = newSession.IDToken
 		s.Email = newSession.Email
 		s.User = newSession.User
